@@ -53,7 +53,7 @@ def check_C20(tier, seed, replay=None):
             if not ok:
                 print("VIOLATION property=C20 replay=%s" % replay)
             return 0 if ok else 1
-        nscen = 78
+        nscen = 79
         rounds = 4 if tier == "quick" else 120
         total = nscen * rounds
         outdir = os.path.join(b.scratch, "out")
@@ -436,9 +436,9 @@ def check_hist(prop, tier, seed, replay=None):
             return 0 if ok else 1
         nops = 72
         if prop == "C10":
-            total = nops * (48 if tier == "quick" else 2000)
+            total = nops * (64 if tier == "quick" else 2000)
         else:
-            total = nops * (32 if tier == "quick" else 1500)
+            total = nops * (48 if tier == "quick" else 1500)
         outdir = os.path.join(b.scratch, "out")
         budget = 100 if tier == "quick" else 1400
         lines, crashes = fanout(exes, seed, total, tier, outdir, budget)
